@@ -7,7 +7,7 @@
    AnnexBReader::accumulate by the correspondence check on generated NAL sequences x partitions x policies. *)
 From H264 Require Import Base.Prelude Base.Bits Model.AnnexB Model.Accum Model.Source Model.Sei Model.Avcc Model.Context Model.Pps Model.Driver
      Spec.AnnexBSpec Spec.AccumSpec Spec.Escape Spec.AvccSpec
-     Proofs.AnnexB_sem Proofs.AnnexB_compose Proofs.C08_proofs Proofs.C09_proofs Proofs.EscapeProofs Proofs.C12_frame Proofs.C12_compose Proofs.NalLevel
+     Proofs.AnnexB_sem Proofs.AnnexB_compose Proofs.C08_proofs Proofs.C09_proofs Proofs.EscapeProofs Proofs.C12_frame Proofs.C12_compose Proofs.C12_pipeline Proofs.NalLevel
      Model.BitReader Model.Sps Model.Nal Model.Slice Spec.SyntaxSps Spec.SyntaxPps Spec.SyntaxSlice Proofs.SpsInv Proofs.PpsInv Proofs.SliceInv Proofs.C14_proofs.
 Local Open Scope N_scope.
 
@@ -108,6 +108,40 @@ Print Assumptions C12_whole_nal_once.
 Theorem C12_escape_clean : forall p, has_sc (escape p) = false /\ unescape (escape p) = Some p.
 Proof. intros p. split; [apply escape_no_startcode|apply unescape_escape]. Qed.
 Print Assumptions C12_escape_clean.
+
+(* The pipeline WITH its running context (Model/Driver.v: AnnexBReader::accumulate + a handler that parses every complete
+   NAL - SPS, PPS, SEI, slice header - against the context built from the NALs before it; the model the correspondence
+   check runs against the crate).  For any clean units (unit_ok, and free of the sequences unescape refuses - both hold
+   of hdr :: escape p, C12_units_ok / C12_escape_clean), any framing, ANY partition into pushes and any starting context:
+   the complete invocations are the units; what the handler prints is what it prints when every invocation is one
+   contiguous buffer; the parse results of the complete NALs are those of parsing each unit alone, in order, each in the
+   context left by its predecessors (alone_all); and the final context is that of alone_all. *)
+Theorem C12_pipeline_context : forall units t cs ctx0 pre,
+  Forall (fun u => unit_ok (snd u)) units -> (t = 0%nat \/ 3 <= t)%nat ->
+  Forall (fun u => exists p, unescape (skipn 1 (snd u)) = Some p) units ->
+  concat cs = annexb_encode units t ->
+  let r := pipeline_run ctx0 [] pre (map APush cs ++ [AReset]) in
+  exists invs,
+    map inv_bytes (filter inv_complete invs) = map snd units /\
+    snd r = (pre ++ fst (lines_of ctx0 (map contiguous invs)))%list /\
+    complete_parses ctx0 invs = alone_all ctx0 (map snd units) /\
+    ps_ctx (fst r) = snd (alone_all ctx0 (map snd units)).
+Proof. exact pipeline_end_to_end. Qed.
+Print Assumptions C12_pipeline_context.
+
+(* the three folds of the pipeline model are one pass of the handler over the accumulator's invocations *)
+Theorem C12_pipeline_fused : forall ops ctx0 pol pre,
+  let invs := run_fragments acc_init pol (frs_of (all_calls AStart ops)) in
+  snd (pipeline_run ctx0 pol pre ops) = (pre ++ fst (lines_of ctx0 invs))%list /\
+  ps_ctx (fst (pipeline_run ctx0 pol pre ops)) = snd (complete_parses ctx0 invs).
+Proof. exact pipeline_fused. Qed.
+Print Assumptions C12_pipeline_fused.
+
+(* non-vacuity of C12_pipeline_context's extra hypothesis, on the units of C12_ex below *)
+Example C12_pipeline_ex :
+  Forall (fun u : nat * list byte => exists p, unescape (skipn 1 (snd u)) = Some p)
+         [(1%nat, [103; 66; 0; 0; 3; 1; 128]); (2%nat, [104; 206; 56; 128])].
+Proof. repeat constructor; eexists; reflexivity. Qed.
 
 (* non-vacuity: two units, a 4-byte and a 3-byte start code with extra leading zeros, 3 trailing zeros,
    pushed in 1-, 2- and 5-byte pieces that cut start codes and units *)
